@@ -32,36 +32,36 @@ package ipv6
 
 // C12 (neighbour discovery): a neighbour solicitation is answered only if the link address
 // cache says the target address (exactly bytes 8..24 of the message) is one of ours.
-//@ func (*endpoint).handleICMP props C07 C12 C13 C06
+//@ func (*endpoint).handleICMP props C07 C12 C13
 //@   requires epOK(e) && r != nil && vvOK(vv)
-//@   at_call CheckLocalAddress requires len(addr) == 16 && forall(k, 0, 16, byteat(addr, k) == old(vv.views[0])[8 + k]) && protocol == ProtocolNumber
-//@   at_call WritePacket requires implies(old(vv.views[0])[0] == uint8(header.ICMPv6NeighborSolicit), ghost(lastLocalCheck) != 0 && protocol == header.ICMPv6ProtocolNumber)
+//@   at_call CheckLocalAddress@C12 requires len(addr) == 16 && forall(k, 0, 16, byteat(addr, k) == old(vv.views[0])[8 + k]) && protocol == ProtocolNumber
+//@   at_call WritePacket@C12 requires implies(old(vv.views[0])[0] == uint8(header.ICMPv6NeighborSolicit), ghost(lastLocalCheck) != 0 && protocol == header.ICMPv6ProtocolNumber)
 // ... and that answer is one neighbour advertisement (type 136, solicited + override), for
 // exactly the address asked about, sent from that address, with a target link-layer address
 // option (type 2, length 1) holding the route's local link address, and no payload.
-//@   at_call WritePacket requires implies(old(vv.views[0][0]) == uint8(header.ICMPv6NeighborSolicit), len(hdr.buf) - hdr.usedIdx == 32 && payload.size == 0
+//@   at_call WritePacket@C12 requires implies(old(vv.views[0][0]) == uint8(header.ICMPv6NeighborSolicit), len(hdr.buf) - hdr.usedIdx == 32 && payload.size == 0
 //@             && hdr.buf[hdr.usedIdx] == uint8(header.ICMPv6NeighborAdvert) && hdr.buf[hdr.usedIdx + 4] == 0x60 && hdr.buf[hdr.usedIdx + 24] == 2 && hdr.buf[hdr.usedIdx + 25] == 1
 //@             && len(recv.LocalAddress) == 16 && forall(k, 0, 16, hdr.buf[hdr.usedIdx + 8 + k] == old(vv.views[0][8 + k]) && byteat(recv.LocalAddress, k) == old(vv.views[0][8 + k]))
 //@             && forall(k, 0, 6, implies(k < len(caller(r).LocalLinkAddress), hdr.buf[hdr.usedIdx + 26 + k] == byteat(caller(r).LocalLinkAddress, k))))
 // A neighbour advertisement teaches the cache the advertised target address (bytes 8..24) at
 // the link address the frame came from.
-//@   at_call AddLinkAddress requires implies(old(vv.views[0][0]) == uint8(header.ICMPv6NeighborAdvert), linkAddr == r.RemoteLinkAddress
+//@   at_call AddLinkAddress@C12 requires implies(old(vv.views[0][0]) == uint8(header.ICMPv6NeighborAdvert), linkAddr == r.RemoteLinkAddress
 //@             && ((len(addr) == 16 && forall(k, 0, 16, byteat(addr, k) == old(vv.views[0][8 + k]))) || addr == r.RemoteAddress))
 // C13 (echo): the only message sent in answer to an echo request is an ICMPv6 echo reply
 // whose 8-byte header carries type 129, the request's code, identifier and sequence number,
 // whose payload is the request's bytes after its 8-byte header (the very views, trimmed),
 // from the address that was pinged to the requester (the route's addresses are used as they
 // are), and - for a payload in one view - whose checksum verifies.
-//@   at_call WritePacket requires implies(old(vv.views[0][0]) == uint8(header.ICMPv6EchoRequest), protocol == header.ICMPv6ProtocolNumber && recv == r && len(hdr.buf) - hdr.usedIdx == 8)
-//@   at_call WritePacket requires implies(old(vv.views[0][0]) == uint8(header.ICMPv6EchoRequest), hdr.buf[hdr.usedIdx] == uint8(header.ICMPv6EchoReply) && hdr.buf[hdr.usedIdx + 1] == old(vv.views[0][1]))
-//@   at_call WritePacket requires implies(old(vv.views[0][0]) == uint8(header.ICMPv6EchoRequest), forall(k, 4, 8, hdr.buf[hdr.usedIdx + k] == old(vv.views[0][k])))
-//@   at_call WritePacket requires implies(old(vv.views[0][0]) == uint8(header.ICMPv6EchoRequest), payload.size == old(vv.size) - 8 && arr(payload.views) == old(arr(vv.views)))
-//@   at_call WritePacket requires implies(old(vv.views[0][0]) == uint8(header.ICMPv6EchoRequest) && old(len(vv.views[0])) > 8, len(payload.views) == old(len(vv.views)) && off(payload.views) == old(off(vv.views))
+//@   at_call WritePacket@C13 requires implies(old(vv.views[0][0]) == uint8(header.ICMPv6EchoRequest), protocol == header.ICMPv6ProtocolNumber && recv == r && len(hdr.buf) - hdr.usedIdx == 8)
+//@   at_call WritePacket@C13 requires implies(old(vv.views[0][0]) == uint8(header.ICMPv6EchoRequest), hdr.buf[hdr.usedIdx] == uint8(header.ICMPv6EchoReply) && hdr.buf[hdr.usedIdx + 1] == old(vv.views[0][1]))
+//@   at_call WritePacket@C13 requires implies(old(vv.views[0][0]) == uint8(header.ICMPv6EchoRequest), forall(k, 4, 8, hdr.buf[hdr.usedIdx + k] == old(vv.views[0][k])))
+//@   at_call WritePacket@C13 requires implies(old(vv.views[0][0]) == uint8(header.ICMPv6EchoRequest), payload.size == old(vv.size) - 8 && arr(payload.views) == old(arr(vv.views)))
+//@   at_call WritePacket@C13 requires implies(old(vv.views[0][0]) == uint8(header.ICMPv6EchoRequest) && old(len(vv.views[0])) > 8, len(payload.views) == old(len(vv.views)) && off(payload.views) == old(off(vv.views))
 //@             && arr(payload.views[0]) == old(arr(vv.views[0])) && off(payload.views[0]) == old(off(vv.views[0])) + 8 && len(payload.views[0]) == old(len(vv.views[0])) - 8
 //@             && forall(k, 1, len(payload.views), buffer.sameView(payload.views[k], old(vv.views[k]))))
-//@   at_call WritePacket requires implies(old(vv.views[0][0]) == uint8(header.ICMPv6EchoRequest) && old(len(vv.views[0])) == 8, len(payload.views) == old(len(vv.views)) - 1 && off(payload.views) == old(off(vv.views)) + 1
+//@   at_call WritePacket@C13 requires implies(old(vv.views[0][0]) == uint8(header.ICMPv6EchoRequest) && old(len(vv.views[0])) == 8, len(payload.views) == old(len(vv.views)) - 1 && off(payload.views) == old(off(vv.views)) + 1
 //@             && forall(k, 0, len(payload.views), buffer.sameView(payload.views[k], old(vv.views[k + 1]))))
-//@   at_call WritePacket requires implies(old(vv.views[0][0]) == uint8(header.ICMPv6EchoRequest) && len(payload.views) == 1 && len(payload.views[0]) <= 65535 && len(r.LocalAddress) == 16 && len(r.RemoteAddress) == 16,
+//@   at_call WritePacket@C13 requires implies(old(vv.views[0][0]) == uint8(header.ICMPv6EchoRequest) && len(payload.views) == 1 && len(payload.views[0]) <= 65535 && len(r.LocalAddress) == 16 && len(r.RemoteAddress) == 16,
 //@             oc16(wsum16(hdr.buf, hdr.usedIdx, hdr.usedIdx + 8) + ph6(r.LocalAddress, r.RemoteAddress, 8 + payload.size) + wsum16(payload.views[0], 0, len(payload.views[0]))) == 0)
 //@   modifies everything(), modset(ARPGHOSTS)
 
